@@ -67,7 +67,7 @@ def run(pid, tier, seed):
     try:
         binp = pool.build_pool_harness(scratch)
         depth = 4 if tier == "quick" else 6
-        optsets = [1, 2, 3, 4, 5, 6, 7, 8] if tier == "quick" else [1, 2, 3, 4, 5, 6, 7, 8, 9]
+        optsets = [1, 2, 3, 4, 5, 6, 7, 8, 10] if tier == "quick" else [1, 2, 3, 4, 5, 6, 7, 8, 9, 10]
         problems, stats = [], []
         cfgp = scratch.path("GCPME_bfs.cfg")
         write_cfg(cfgp, depth, "bfs", FAM[pid], optsets)
@@ -79,13 +79,13 @@ def run(pid, tier, seed):
             problems.append({"mode": "bfs", "violated": r["violated"], "errors": r["errors"][:2], "tail": r["out"][-3000:], "hist": vlib.cex_hist(cex)})
         hists = vlib.hists_from_tlc(r["outfile"], True)
         os.remove(r["outfile"])
-        lim = 350 if tier == "quick" else 4000
+        lim = 2500 if tier == "quick" else 8000
         if len(hists) > lim:
             rnd.shuffle(hists)
             hists = hists[:lim]
         simn, simd = (3, 10) if tier == "quick" else (40, 16)
         cfgs = scratch.path("GCPME_sim.cfg")
-        write_cfg(cfgs, simd, "sim", FAM[pid], [1, 2, 3, 4, 5, 6, 7, 8, 9], ticks=(1, 6))
+        write_cfg(cfgs, simd, "sim", FAM[pid], [1, 2, 3, 4, 5, 6, 7, 8, 9, 10], ticks=(1, 6))
         r2 = vlib.tlc(scratch, "GCPME", cfgs, workers=16, timeout=900, simulate="num=%d" % simn, depth=simd + 1, seed=seed, tag="gcpme-sim")
         mm = re.findall(r"The number of states generated: (\d+)", r2["out"])
         transitions += int(mm[-1]) if mm else 0
@@ -120,7 +120,13 @@ def run(pid, tier, seed):
                         v.append({"op": "tick", "n": 1})
                 v += [{"op": "tick", "n": 6}, {"op": "rpc", "name": ""}]
             derived.append(v)
-        hists = hists + derived
+        # the exhaustive histories are as long as the bound allows: a call is appended to a third of those that end in a
+        # reconfiguration or an outage (what an RPC meets after the last input is what C16 is about)
+        probes = []
+        for i, h in enumerate(hists):
+            if h and h[-1].get("op") in ("down", "up", "update"):
+                probes.append(h + [{"op": "rpc", "name": ""}, {"op": "rpc", "name": "m2"}])
+        hists = hists + derived + probes
         for i, h in enumerate(hists):
             r_, d_ = TIMED[i % 3] if any(s.get("op") == "tick" for s in h) else (0, 0)
             scripts.append({"id": "g-%d" % i, "r": r_, "d": d_, "steps": h})
